@@ -71,10 +71,70 @@ func classifyBase(v ssa.Value, fn *ssa.Function) int {
 		case *ssa.ChangeInterface:
 			v = x.X
 			continue
+		case *ssa.Call:
+			// the result of an in-repo constructor: a function every return of which hands back an object
+			// it has just allocated (directly or through another such function)
+			if callee := x.Call.StaticCallee(); callee != nil && inRepoFn(callee) && returnsFresh(callee, map[*ssa.Function]bool{}) {
+				return baseFresh
+			}
+			return baseUnknown
 		}
 		return baseUnknown
 	}
 	return baseUnknown
+}
+
+// returnsFresh: fn has a single pointer result and every return hands back an Alloc of fn itself
+// (or the result of a call to another such function) that is not stored anywhere else.
+func returnsFresh(fn *ssa.Function, seen map[*ssa.Function]bool) bool {
+	if seen[fn] || len(fn.Blocks) == 0 || fn.Signature.Results().Len() != 1 {
+		return false
+	}
+	seen[fn] = true
+	if _, isPtr := fn.Signature.Results().At(0).Type().Underlying().(*types.Pointer); !isPtr {
+		return false
+	}
+	n := 0
+	for _, b := range fn.Blocks {
+		for _, in := range b.Instrs {
+			r, ok := in.(*ssa.Return)
+			if !ok {
+				continue
+			}
+			n++
+			switch x := r.Results[0].(type) {
+			case *ssa.Alloc:
+				if !x.Heap || escapesBeyondReturn(x) {
+					return false
+				}
+			case *ssa.Call:
+				callee := x.Call.StaticCallee()
+				if callee == nil || !inRepoFn(callee) || !returnsFresh(callee, seen) {
+					return false
+				}
+			default:
+				return false
+			}
+		}
+	}
+	return n > 0
+}
+
+// escapesBeyondReturn: the allocated object is stored into another object, captured, or passed to a call
+// (then it may be reachable from somewhere else as well and is not simply "fresh" for the caller).
+func escapesBeyondReturn(a *ssa.Alloc) bool {
+	for _, ref := range *a.Referrers() {
+		switch r := ref.(type) {
+		case *ssa.Store:
+			if r.Val == a {
+				return true
+			}
+		case *ssa.FieldAddr, *ssa.Return, *ssa.DebugRef, *ssa.UnOp:
+		default:
+			return true
+		}
+	}
+	return false
 }
 
 func locOfBase(b int) *locSet {
